@@ -124,21 +124,23 @@ func VerifHarness_C02_rt_fields() {
 }
 
 // VerifHarness_C02_rt_group: RES resources x SCOPES scopes x 1 record with symbolic, possibly equal or
-// near-identical resource/scope identities — in particular the same scope under different resources.
+// near-identical resource/scope identities — in particular the same scope under different resources
+// (see VerifHarness_C01_rt_group for the identity construction).
 func VerifHarness_C02_rt_group() {
 	p, c := verifProducer(), verifConsumer()
 	for b := 0; b < rt.Param("BATCHES"); b++ {
 		ld := plog.NewLogs()
 		for r := 0; r < rt.Param("RES"); r++ {
 			rl := ld.ResourceLogs().AppendEmpty()
-			verifAttrs(rl.Resource().Attributes(), "res", 1, 1|2)
-			rl.SetSchemaUrl(rt.String("res.url", 1))
+			verifIdentityAttr(rl.Resource().Attributes(), "res")
+			rl.SetSchemaUrl(verifOne("res.url"))
 			for s := 0; s < rt.Param("SCOPES"); s++ {
 				sl := rl.ScopeLogs().AppendEmpty()
-				sl.Scope().SetName(rt.String("scope.name", 1))
-				sl.Scope().SetVersion(rt.String("scope.version", 1))
-				sl.SetSchemaUrl(rt.String("scope.url", 1))
-				verifAttrs(sl.Scope().Attributes(), "scope", 1, 1|2)
+				sl.Scope().SetName(verifOne("scope.name"))
+				sl.SetSchemaUrl(verifOne("scope.url"))
+				if rt.Param("SCOPEATTR") == 1 {
+					verifIdentityAttr(sl.Scope().Attributes(), "scope")
+				}
 				verifLogFields(sl.LogRecords().AppendEmpty(), "lr", 0, 0)
 			}
 		}
